@@ -6,7 +6,7 @@ func UESecurityCapabilityToByteArray(buf []uint8) (nea, nia, eea, eia [2]byte) {
 	}
 	nea[0] = buf[0] << 1
 	nia[0] = buf[1] << 1
-	if len(buf) > 2 {
+	if len(buf) > 3 {
 		eea[0] = buf[2] << 1
 		eia[0] = buf[3] << 1
 	}
